@@ -74,4 +74,6 @@ VARIANTS = [
     {'name': 'averaged-partners-skip-after-first-found', 'rule': 'C15.R4',
      'edits': [(M, "        for avr_group in avr_conformation.groups:\n            partners: list = []\n", "        done: list = []\n        for avr_group in avr_conformation.groups:\n            partners: list = []\n"),
                (M, "                    if avr_other and avr_other not in partners:\n                        partners.append(avr_other)", "                    if avr_other and avr_other not in partners and avr_other not in done:\n                        partners.append(avr_other)\n                        done.append(avr_other)")]},
+    {'name': 'marks-stored-inside-the-conformation-loop', 'rule': 'C15.R4',
+     'edits': [('molecular_container.py', "                        partners.append(avr_other)\n            avr_group.non_covalently_coupled_groups = partners", "                        partners.append(avr_other)\n                avr_group.non_covalently_coupled_groups = list(partners)")]},
 ]
